@@ -27,7 +27,7 @@ func init() {
 			// the same under other iteration orders of the planner's maps (the order of the root steps of a plan
 			// follows a map; what is done to a plan that the cache hands out again may depend on it)
 			{Name: "mutations-map-orders", Pkg: ".", Files: files, Entry: "VerifMutations", Mode: "seq",
-				Quick: map[string]int{"maporder": 1, "healthyonly": 1}, Thorough: map[string]int{"maporder": 2, "healthyonly": 1},
+				Quick: map[string]int{"maporder": 1, "healthyonly": 1}, Thorough: map[string]int{"maporder": 2, "healthyonly": 1, "budget_s": 7200},
 				Reach: []string{"healthy"}, Functions: pipelineFns},
 			// below the executor: one Query call of the real HTTP client is one POST, whatever status and body
 			// come back (a retry would execute the mutation twice)
